@@ -740,6 +740,49 @@ def uncond_subnodes(n, include_self=True):
     return out
 
 
+EXIT_KINDS = ("ret", "break", "continue", "try")
+
+
+def _exit_nodes(n):
+    return [x for x in ir.walk(n, into_closures=False) if x["k"] in EXIT_KINDS]
+
+
+def sure_subnodes(n):
+    """Nodes evaluated on EVERY path that enters n, whichever way the path leaves n (fall-through, `?`, return,
+    break, continue).  Stricter than uncond_subnodes, which describes only the paths that complete n normally."""
+    out = []
+
+    def stmt(s):
+        """append the sure nodes of statement s; return False when later statements are no longer sure"""
+        if s["k"] == "block":
+            for st in stmts_of(s):
+                if not stmt(st):
+                    return False
+            return True
+        exits = _exit_nodes(s)
+        un = uncond_subnodes(s)
+        if not exits:
+            out.extend(un)
+            return True
+        order = {id(x): i for i, x in enumerate(ir.walk(s, into_closures=False))}
+        first = min(exits, key=lambda e: order[id(e)])
+        under_first = set(id(x) for x in ir.walk(first))
+        for x in un:
+            if x is first or id(x) in under_first:
+                if x is not first:
+                    out.append(x)
+                continue
+            if order.get(id(x), 1 << 30) > order[id(first)]:
+                continue          # evaluated after the first possible exit
+            if any(id(e) in set(id(y) for y in ir.walk(x)) for e in exits):
+                continue          # completes only after an exit point inside it
+            out.append(x)
+        return False
+
+    stmt(n)
+    return out
+
+
 def strip_ok_wrappers(n):
     """`x.await.map_err(f)` -> x  (for Ok-facts of `?`)."""
     while True:
